@@ -49,7 +49,8 @@ def _alarm(signum, frame):
 
 def watchdog(fn, seconds):
     old = signal.signal(signal.SIGALRM, _alarm)
-    signal.setitimer(signal.ITIMER_REAL, seconds)
+    # re-fires every second after the limit: an alarm delivered inside a destructor is swallowed by Python
+    signal.setitimer(signal.ITIMER_REAL, seconds, 1.0)
     try:
         return fn()
     finally:
@@ -709,7 +710,18 @@ def attempt(env, target, data, priors, timeout, model=None, follow=False, restor
     with open(env.path(target), 'wb') as f:
         f.write(data)
     try:
-        return _attempt(env, target, priors, timeout, model, follow, restore or {})
+        r = _attempt(env, target, priors, timeout, model, follow, restore or {})
+        if any(p[0] == 'hang' for p in r['problems']):
+            # a watchdog that fires on a loaded machine is not a hang: the whole attempt is redone in a
+            # fresh ResourceSet with a much longer limit, and only a second time-out is reported
+            with open(env.path(target), 'wb') as f:
+                f.write(data)
+            for name in (restore or {}):
+                with open(env.path(name), 'wb') as f:
+                    f.write(env.files[name])
+            r = _attempt(env, target, priors, timeout * 4, model, follow, restore or {})
+            r['retried_after_timeout'] = True
+        return r
     finally:
         if target in env.files:         # the other scenarios need the intact document back
             with open(env.path(target), 'wb') as f:
@@ -1181,6 +1193,8 @@ def run(ctx, out):
             stats['with_nested_loads'] += 1
         if r.get('followed'):
             stats['followed_by_intact_reload'] += 1
+        if r.get('retried_after_timeout'):
+            stats['watchdog_retries'] = stats.get('watchdog_retries', 0) + 1
         if model is not None and not r['setup_failed'] and r['outcome'] != 'hang':
             stats['model_calls'] += 1
         stats['distinct'].add((env.fmt, target, tuple(priors), hash(data)))
@@ -1332,6 +1346,7 @@ def run(ctx, out):
         'attempts_with_nested_get_resource': stats['with_nested_loads'],
         'attempts_on_documents_naming_their_metamodel_by_location_only': stats['location_only_attempts'],
         'failed_loads_followed_by_intact_reload(same+fresh rset)': stats['followed_by_intact_reload'],
+        'attempts_redone_after_a_watchdog_timeout': stats.get('watchdog_retries', 0),
         'later_load_affected_inherited(not attributed)': stats['later_load_affected_inherited'],
         'registry_walk_calls(get/remove on intact documents)': stats['registry_walk_calls'],
         'attempts_whose_prior_documents_failed_to_load': stats['setup_failed'],
@@ -1347,7 +1362,8 @@ def run(ctx, out):
         'nested get_resource calls are observed by subclassing ResourceSet (public API), nothing is patched',
         'objects of previously loaded resources are compared through eGet/eContainer/eResource; an unresolved '
         'proxy is compared as such (not resolved by the observation)',
-        f'watchdog: {timeout}s per get_resource call (SIGALRM)',
+        f'watchdog: {timeout}s per get_resource call (SIGALRM); a time-out is confirmed by redoing the attempt with '
+        f'{timeout * 4}s before it is reported as a hang',
     ]
 
 
